@@ -405,33 +405,57 @@ func (h *Handler) HandleRmdir(ctx *Context, path string) error {
 	return nil
 }
 
-// fsOnly needed to detach all "optional" interfaces like afero.Lstater.
-type fsOnly struct{ afero.Fs }
-
 func (h *Handler) HandleGetDirSize(ctx *Context, path string) (int64, error) {
 	log := slog.With(slog.String("path", path))
 	log.DebugContext(ctx, "Get directory size")
 
-	var size int64
-	// detach afero.Lstater interface to resolve symlinks in afero.Walk.
-	_ = afero.Walk(&fsOnly{h.Fs}, path, func(path string, info fs.FileInfo, err error) error {
-		if err != nil {
-			log.WarnContext(ctx, "Skipping path because of error",
-				slog.String("path", path), logutil.ErrorAttr(err))
-			return nil
-		}
-
-		if info.IsDir() {
-			return nil
-		}
-
-		size += info.Size()
-		return nil
-	})
+	size := h.dirSize(ctx, path, nil)
 
 	log.DebugContext(ctx, "Directory size calculated", slog.Int64("size", size))
 
 	return size, nil
+}
+
+// dirSize sums sizes of files under path. Symlinks are resolved (Stat), so a link to one of the directories
+// we are already in would make us walk in circles: such directory is not entered again.
+func (h *Handler) dirSize(ctx *Context, path string, ancestors []fs.FileInfo) int64 {
+	skip := func(err error) int64 {
+		slog.WarnContext(ctx, "Skipping path because of error", slog.String("path", path), logutil.ErrorAttr(err))
+		return 0
+	}
+
+	info, err := h.Fs.Stat(path)
+	if err != nil {
+		return skip(err)
+	}
+
+	if !info.IsDir() {
+		return info.Size()
+	}
+
+	for _, ancestor := range ancestors {
+		if os.SameFile(ancestor, info) {
+			return 0
+		}
+	}
+
+	dir, err := h.Fs.Open(path)
+	if err != nil {
+		return skip(err)
+	}
+
+	names, err := dir.Readdirnames(-1)
+	_ = dir.Close()
+	if err != nil {
+		return skip(err)
+	}
+
+	var size int64
+	for _, name := range names {
+		size += h.dirSize(ctx, filepath.Join(path, name), append(ancestors, info))
+	}
+
+	return size
 }
 
 func determineSectorSize(f io.ReaderAt) (int, error) {
